@@ -21,7 +21,7 @@ case "$ID" in
   C12|C14|C17|C20) build "$HERE/bin/vcheck-race" -race ;;
 esac
 case "$ID" in
-  C02|C03|C04|C06|C09|C11|C12|C14|C16) if ! (cd /repo && go build -ldflags=-checklinkname=0 -o "$HERE/bin/kvass" ./cmd/kvass) > "$HERE/bin/build-kvass.log" 2>&1; then
+  C01|C02|C03|C04|C06|C09|C11|C12|C14|C16|C20) if ! (cd /repo && go build -ldflags=-checklinkname=0 -o "$HERE/bin/kvass" ./cmd/kvass) > "$HERE/bin/build-kvass.log" 2>&1; then
          echo "BUILD FAILED (kvass binary):"; tail -40 "$HERE/bin/build-kvass.log"; exit 2; fi ;;
 esac
 cd "$HERE" || exit 2
